@@ -511,3 +511,257 @@ def gen_memcheck(rng, tier):
 CLI_MEMCHECK = Stream('cli_memcheck', memcheck_harness, None, gen_memcheck, oracle=oracle_memcheck, kind='oracle',
                       nontrivial=lambda op, out: out.startswith('rc=0'), timeout=900, session='\x00none',
                       batches={'quick': 1, 'thorough': 1})
+
+
+# ------------------------------------------------------------------ ref_edge_create (diff against Model.ReproEdge)
+# (group, node_per, size_per) of the cell stores the edge loop visits (2-D groups 3..7, 3-D groups 8..15) and of
+# group 0 (edg), which it does not visit
+GROUPS = {0: (2, 3), 3: (3, 4), 4: (6, 7), 6: (4, 5), 7: (9, 10), 8: (4, 4), 9: (5, 5), 10: (6, 6), 11: (8, 8),
+          12: (10, 10)}
+
+
+def _cell(rng, g, pool):
+    npr, spr = GROUPS[g]
+    nodes = rng.sample(pool, npr) if len(pool) >= npr and rng.random() < 0.9 else [rng.choice(pool) for _ in range(npr)]
+    return nodes + [rng.randint(1, 9)] * (spr - npr)
+
+
+def gen_edges(rng, tier):
+    ops = []
+    nsess = 10 if tier == 'quick' else 40
+    for s in range(nsess):
+        kind = rng.choice(['tri', 'tet', 'mixed', 'mixed', 'big', 'quad'])
+        if kind == 'tri':
+            groups = [3]
+        elif kind == 'tet':
+            groups = [8]
+        elif kind == 'quad':
+            groups = [6, 11, 4, 12]
+        elif kind == 'big':
+            groups = [8, 3]
+        else:
+            groups = rng.sample([0, 3, 6, 8, 9, 10, 11], rng.randint(2, 4))
+        npool = rng.choice([5, 8, 12, 30]) if kind != 'big' else rng.choice([40, 120])
+        pool = list(range(npool)) if rng.random() < 0.8 else sorted(rng.sample(range(0, 6000), npool))
+        ncell = rng.randint(2, 14) if kind != 'big' else rng.randint(90, 160)
+        cells = [(g, _cell(rng, g, pool)) for g in (rng.choice(groups) for _ in range(ncell))]
+        variant = rng.choice(['plain', 'readd', 'junk', 'reverse', 'removes'])
+        # history A: straightforward
+        ops.append('reset')
+        for g, c in cells:
+            ops.append('add %d %s' % (g, ' '.join(map(str, c))))
+        if rng.random() < 0.3:
+            ops.append('edges')
+        ops += ['live', 'edges']
+        # history B
+        ops.append('reset')
+        if variant == 'readd':
+            # remove a cell and add the same nodes again: the freed slot is reused, the live sequence is the same
+            for g, c in cells:
+                ops.append('add %d %s' % (g, ' '.join(map(str, c))))
+            per = {}
+            idx = []
+            for g, c in cells:
+                idx.append((g, per.get(g, 0)))
+                per[g] = per.get(g, 0) + 1
+            for k in rng.sample(range(len(cells)), min(3, len(cells))):
+                g, slot = idx[k]
+                ops.append('remove %d %d' % (g, slot))
+                ops.append('add %d %s' % (g, ' '.join(map(str, cells[k][1]))))
+        elif variant == 'junk':
+            # extra cells added at the end and removed again (adjacency chains and free lists differ)
+            for g, c in cells:
+                ops.append('add %d %s' % (g, ' '.join(map(str, c))))
+            per = {}
+            for g, c in cells:
+                per[g] = per.get(g, 0) + 1
+            junk = []
+            for _ in range(rng.randint(1, 5)):
+                g = rng.choice(groups)
+                ops.append('add %d %s' % (g, ' '.join(map(str, _cell(rng, g, pool)))))
+                junk.append((g, per.get(g, 0)))
+                per[g] = per.get(g, 0) + 1
+            rng.shuffle(junk)
+            for g, slot in junk:
+                ops.append('remove %d %d' % (g, slot))
+        elif variant == 'reverse':
+            for g, c in reversed(cells):
+                ops.append('add %d %s' % (g, ' '.join(map(str, c))))
+        elif variant == 'removes':
+            for g, c in cells:
+                ops.append('add %d %s' % (g, ' '.join(map(str, c))))
+            per = {}
+            for g, c in cells:
+                per[g] = per.get(g, 0) + 1
+            for _ in range(rng.randint(1, 4)):
+                g = rng.choice(groups)
+                ops.append('remove %d %d' % (g, rng.randint(0, max(0, per.get(g, 1) - 1))))
+            g = rng.choice(groups)
+            ops.append('add %d %s' % (g, ' '.join(map(str, _cell(rng, g, pool)))))
+        else:
+            for g, c in cells:
+                ops.append('add %d %s' % (g, ' '.join(map(str, c))))
+        ops += ['live', 'edges']
+        if rng.random() < 0.15:   # malformed share
+            ops += ['reset', rng.choice(['add 3 0 1 -2 5', 'add 8 1 -3 2 3', 'add 16 0 1 2 3', 'add 3 0 1', 'remove 3 7',
+                                         'add 3 -1 2 3 1', 'edges x']), 'live', 'edges']
+    return ops
+
+
+UNDIRECTED_COMPLETE = {3: 3, 8: 4}   # simplices: every node pair of the cell is an edge
+
+
+def oracle_edges(ops, impl):
+    """C18 on the implementation's own output: (i) no undirected edge is numbered twice, every edge joins two nodes
+    of one live cell of a visited group, every node pair of a live tri/tet is an edge; (ii) two histories that end in
+    the same live-cell sequence give the same e2n, entry by entry"""
+    bad = []
+    seen = {}
+    last_live = None
+    for i, (op, line) in enumerate(zip(ops, impl)):
+        w = op.split()
+        if w[0] in ('reset', 'add', 'remove'):
+            last_live = None
+        elif w[0] == 'live' and line.startswith('ok'):
+            last_live = line
+        elif w[0] == 'edges' and len(w) == 1 and line.startswith('ok') and last_live is not None:
+            t = line.split()
+            n = int(t[1])
+            e = [(int(t[2 + 2 * k]), int(t[3 + 2 * k])) for k in range(n)]
+            und = [frozenset(p) if p[0] != p[1] else (p[0],) for p in e]
+            if len(set(und)) != len(und):
+                bad.append((i, 'C18 ref_edge_create numbered an undirected edge twice: %s' % line[:200]))
+                continue
+            cells = []
+            for tok in last_live.split()[1:]:
+                g, c, ns = tok.split(':')
+                if int(g) >= 3:
+                    cells.append((int(g), [int(x) for x in ns.split(',')]))
+            pairs = set()
+            for g, ns in cells:
+                for a in ns:
+                    for b in ns:
+                        pairs.add((a, b))
+            for p in e:
+                if p not in pairs:
+                    bad.append((i, 'C18 edge %s joins no two nodes of a live cell' % (p,)))
+                    break
+            have = set(und)
+            for g, ns in cells:
+                if g in UNDIRECTED_COMPLETE:
+                    for x in range(len(ns)):
+                        for y in range(x + 1, len(ns)):
+                            k = frozenset((ns[x], ns[y])) if ns[x] != ns[y] else (ns[x],)
+                            if k not in have:
+                                bad.append((i, 'C18 cell edge (%d,%d) of a live cell is missing from e2n' % (ns[x], ns[y])))
+                                break
+            if last_live in seen and seen[last_live][1] != line:
+                bad.append((i, 'C18 same live-cell sequence, different edge numbering: op %d gave %s, op %d gives %s' %
+                            (seen[last_live][0], seen[last_live][1][:120], i, line[:120])))
+            seen.setdefault(last_live, (i, line))
+    return bad
+
+
+EDGES = Stream('repro_edges', 'h_repro', 'repro', gen_edges, oracle=oracle_edges,
+               nontrivial=lambda op, out: out.startswith('ok ') and op.split()[0] in ('edges', 'live'))
+
+
+# ------------------------------------------------------------------ wall distance under two rand() streams
+def gen_walldist(rng, tier):
+    import struct
+    hx = lambda x: struct.pack('>d', float(x)).hex()
+    ops = []
+    for s in range(8 if tier == 'quick' else 30):
+        per = rng.choice([2, 3, 3])
+        ops.append('reset')
+        n = rng.choice([1, 2, 5, 12, 40, 90])
+        kind = rng.choice(['random', 'cluster', 'lattice', 'dup'])
+        base = [rng.uniform(-1, 1) for _ in range(3)]
+        for e in range(n):
+            if kind == 'lattice':
+                c = [float(e % 4), float((e // 4) % 4), float(e // 16) if per == 3 else 0.0]
+            elif kind == 'cluster':
+                c = [b + rng.uniform(-1e-3, 1e-3) for b in base]
+            elif kind == 'dup' and e % 2 == 1:
+                c = prev
+            else:
+                c = [rng.uniform(-2, 2), rng.uniform(-2, 2), rng.uniform(-2, 2) if per == 3 else 0.0]
+            prev = c
+            pts = []
+            for v in range(per):
+                if kind == 'dup' and e % 2 == 1:
+                    pts += pp[3 * v:3 * v + 3]
+                else:
+                    pts += [c[0] + rng.uniform(-0.5, 0.5), c[1] + rng.uniform(-0.5, 0.5),
+                            (c[2] + rng.uniform(-0.5, 0.5)) if per == 3 else 0.0]
+            pp = pts
+            ops.append('welem %d %s' % (per, ' '.join(hx(x) for x in pts)))
+        mask = rng.choice([7, 7, 1, 2, 4, 3, 5, 6])
+        nq = rng.randint(1, 12)
+        q = []
+        for _ in range(nq):
+            q += [rng.uniform(-3, 3), rng.uniform(-3, 3), rng.uniform(-3, 3) if per == 3 else 0.0]
+        wd = 'walldist %d %d %s' % (per, mask, ' '.join(hx(x) for x in q))
+        for k in range(3):
+            ops.append('randseed %d' % rng.randint(0, 10 ** 8))
+            ops.append(wd)
+    return ops
+
+
+def oracle_walldist(ops, impl):
+    bad = []
+    first = {}
+    for i, (op, line) in enumerate(zip(ops, impl)):
+        w = op.split()
+        if w[0] == 'reset':
+            first = {}
+        elif w[0] == 'walldist':
+            if not line.startswith('ok'):
+                bad.append((i, 'ref_phys_wall_distance returned %s' % line[:80]))
+            elif op in first and first[op][1] != line:
+                bad.append((i, 'C18 wall distance depends on the rand() stream (tree insertion order): op %d gave %s, '
+                               'op %d gives %s' % (first[op][0], first[op][1][:160], i, line[:160])))
+            first.setdefault(op, (i, line))
+    return bad
+
+
+WALLDIST_ORDERS = Stream('repro_walldist_orders', 'h_repro', None, gen_walldist, oracle=oracle_walldist, kind='oracle',
+                         nontrivial=lambda op, out: out.startswith('ok ') and op.startswith('walldist'))
+
+
+# ------------------------------------------------------------------ scheduled point-to-point (diff, MPI + delay shim)
+def gen_sched(rng, tier, np):
+    ops = []
+    for _ in range(30 if tier == 'quick' else 120):
+        for _k in range(50):
+            o = streams_comm.gen_alltoallv(rng, np)
+            w = o.split()
+            if w[3] == '1':      # native variant only (the MPI_Alltoallv variant has no point-to-point messages)
+                ops.append(o)
+                break
+        ty = streams_comm.pick_type(rng)
+        counts = streams_comm.count_vector(rng, np, 20)
+        ops.append(streams_comm.line(rng.choice(['scatter', 'gather']), np, [ty],
+                                     [[streams_comm.tok(ty, s * 64 + i) for i in range(counts[s])] for s in range(np)]))
+    return ops
+
+
+def oracle_sched(ops, impl):
+    """sequential specification of the three primitives on the implementation's output (same as C17's oracles)"""
+    ex = [o for o in ops if o.split()[0] == 'alltoallv']
+    co = [o for o in ops if o.split()[0] != 'alltoallv']
+    iex = [l for o, l in zip(ops, impl) if o.split()[0] == 'alltoallv']
+    ico = [l for o, l in zip(ops, impl) if o.split()[0] != 'alltoallv']
+    idx_ex = [i for i, o in enumerate(ops) if o.split()[0] == 'alltoallv']
+    idx_co = [i for i, o in enumerate(ops) if o.split()[0] != 'alltoallv']
+    bad = [(idx_ex[i], m) + tuple(r) for (i, m, *r) in streams_comm.oracle_exchange(ex, iex)]
+    bad += [(idx_co[i], m) + tuple(r) for (i, m, *r) in streams_comm.oracle_collect(co, ico)]
+    return bad
+
+
+SCHED = Stream('repro_sched', 'h_comm', 'repro', gen_sched, oracle=oracle_sched, np=[2, 3, 4], whitebox=('ref_mpi',),
+               timeout=300, nontrivial=streams_comm._nontrivial, session='\x00none',
+               batches={'quick': 1, 'thorough': 3}, extra_src=('pmpi_delay.c',),
+               env={'REF_VERIF_DELAY_SEED': str(1 + int(os.environ.get('VERIF_SEED', '1')) % 9973),
+                    'REF_VERIF_DELAY_MAX_US': '300', 'REF_VERIF_DELAY_PCT': '60'})
+SCHED.ops_file = True
